@@ -17,9 +17,10 @@ import (
 )
 
 type c12Conn struct {
-	State string `json:"state"` // handler-gated handler-slow just-closed onclose-held
-	How   string `json:"how"`   // fin unbind
+	State string `json:"state"` // handler-gated handler-slow just-closed onclose-held pipelined-slow
+	How   string `json:"how"`   // fin unbind rst
 	K     int    `json:"k"`
+	TLS   bool   `json:"tls,omitempty"` // the connection is a TLS session (scenario-wide: the server then runs with a TLS config)
 }
 
 type c12Case struct {
@@ -170,6 +171,20 @@ func c12Exec(c c12Case, st *lab.Stats) *lab.Fail {
 			return false, nil
 		}
 	}
+	useTLS := false
+	for _, cs := range c.Conns {
+		useTLS = useTLS || cs.TLS
+	}
+	var runOpts []gldap.Option
+	var pki *lab.PKI
+	if useTLS {
+		var perr error
+		if pki, _, perr = lab.SharedPKI(); perr != nil {
+			st.Inconclusive(perr.Error())
+			return nil
+		}
+		runOpts = append(runOpts, gldap.WithTLSConfig(pki.ServerTLS()))
+	}
 	switch c.Order {
 	case "before-run":
 		ok, err := timedStop()
@@ -210,7 +225,7 @@ func c12Exec(c c12Case, st *lab.Stats) *lab.Fail {
 		return portChecks(ret, rerr)
 	}
 	// serving orders
-	go func() { runErr <- s.Run(addr) }()
+	go func() { runErr <- s.Run(addr, runOpts...) }()
 	deadline := time.Now().Add(5 * time.Second)
 	for !s.Ready() {
 		select {
@@ -234,7 +249,13 @@ func c12Exec(c c12Case, st *lab.Stats) *lab.Fail {
 		}
 	}()
 	for tag, cs := range c.Conns {
-		cl, err := lab.Dial(addr)
+		var cl *lab.Client
+		var err error
+		if useTLS {
+			cl, err = lab.DialTLS(addr, pki.ClientTLS(false))
+		} else {
+			cl, err = lab.Dial(addr)
+		}
 		if err != nil {
 			st.Inconclusive(err.Error())
 			return nil
@@ -277,7 +298,11 @@ func c12Exec(c c12Case, st *lab.Stats) *lab.Fail {
 		if cs.How == "unbind" {
 			_ = clients[tag].Send(simpleReq("unbind", int64(tag)*tagStride+99).Bytes())
 		}
-		clients[tag].Close()
+		if cs.How == "rst" {
+			rst(rawConn(clients[tag].C)) // the client vanishes: over TLS the server cannot even send its close_notify
+			continue
+		}
+		_ = rawConn(clients[tag].C).Close()
 	}
 	accepted := int64(len(c.Conns))
 	// the gate opens by a timer, NOT by Stop's return
@@ -329,7 +354,7 @@ func c12Exec(c c12Case, st *lab.Stats) *lab.Fail {
 func TestC12(t *testing.T) {
 	lab.Prop[c12Case]{
 		ID: "C12", Part: "stop",
-		Rule: "rapid: order of Stop relative to Run in {before Run, concurrently with Run's start (a sweep of 8..24 busy-wait delays of 0..1 ms after Run was started, plus 0..200 scheduler yields), after Ready, twice in sequence, twice concurrently} x 0..6 connections whose state at Stop time is handler held on a gate / handler sleeping / client just closed / OnClose callback held / requests + Unbind pipelined in one write with slow handlers (nobody waits for the answers); every client has closed (FIN or Unbind) before Stop is called and the gate is opened by a timer 20..250 ms after Stop was called, never by Stop's return; oracle sampled at the instant Stop returns: in-flight handler counter == 0 and completed OnClose callbacks == accepted connections; after Run returned (must be nil): dial refused and the port can be bound again; second Stop harmless; non-trivial = >= 1 handler/OnClose still held when Stop was called, or Stop overlapped/preceded Run; distinct by hash",
+		Rule: "rapid: order of Stop relative to Run in {before Run, concurrently with Run's start (a sweep of 8..24 busy-wait delays of 0..1 ms after Run was started, plus 0..200 scheduler yields), after Ready, twice in sequence, twice concurrently} x 0..6 connections whose state at Stop time is handler held on a gate / handler sleeping / client just closed / OnClose callback held / requests + Unbind pipelined in one write with slow handlers (nobody waits for the answers); plain or TLS sessions; every client has closed (FIN, Unbind or RST) before Stop is called and the gate is opened by a timer 20..250 ms after Stop was called, never by Stop's return; oracle sampled at the instant EACH Stop call returns: in-flight handler counter == 0 and completed OnClose callbacks == accepted connections; after Run returned (must be nil): dial refused and the port can be bound again; second Stop harmless; non-trivial = >= 1 handler/OnClose still held when Stop was called, or Stop overlapped/preceded Run; distinct by hash",
 		Gen: func(t *rapid.T) c12Case {
 			c := c12Case{
 				Order:  rapid.SampledFrom([]string{"after-ready", "after-ready", "after-ready", "before-run", "concurrent-start", "concurrent-start", "twice-seq", "twice-concurrent"}).Draw(t, "order"),
@@ -346,9 +371,14 @@ func TestC12(t *testing.T) {
 				for i := 0; i < n; i++ {
 					c.Conns = append(c.Conns, c12Conn{
 						State: rapid.SampledFrom([]string{"handler-gated", "handler-gated", "handler-slow", "just-closed", "onclose-held", "pipelined-slow", "pipelined-slow"}).Draw(t, "state"),
-						How:   rapid.SampledFrom([]string{"fin", "unbind"}).Draw(t, "how"),
+						How:   rapid.SampledFrom([]string{"fin", "unbind", "rst"}).Draw(t, "how"),
 						K:     rapid.IntRange(1, 3).Draw(t, "k"),
 					})
+				}
+				if rapid.IntRange(0, 2).Draw(t, "tls") == 0 {
+					for i := range c.Conns {
+						c.Conns[i].TLS = true
+					}
 				}
 			}
 			return c
